@@ -1,22 +1,68 @@
 """C07 - the proxy heals after connection loss and topology change.
 
-spec/redis/ConnTable.tla: backend connection table + shared connect calls + client exit/removal + resetAllClients.
- 1. exhaustive TLC run of the repaired design (ErrorsOnlyWhileDown, NoDeadEntry, NoOrphanClient, NoStaleCall);
- 2. the pinned variants (connect-call entry never removed; removal by address) must yield their counterexamples;
- 3. spec -> code: TLC simulation emits histories (requests / connection loss / backend down+up / reset-all);
-    each is replayed end-to-end on a real Redis processor against a simulated node that is reset, shut down and
-    restarted on the same port; per request the reply class is compared with what the model allows
-    (error only if the request witnessed a fault), then the proxy must serve requests again over a new
-    connection, hold at most one backend connection per node, and none after Stop;
+spec/redis/ConnTable.tla: backend connection table + shared connect calls + client exit/removal + resetAllClients
+                          + a stalled backend connection (in-flight queue full, writer waiting at a hand-over).
+ 1. exhaustive TLC run of the repaired design (ErrorsOnlyWhileDown, NoDeadEntry, NoOrphanClient, NoStaleCall, NoWedgedClient);
+ 2. the pinned variants (connect-call entry never removed; removal by address; snapshot before the lock; hand-over of the
+    ASKING placeholder that does not wait for quit) must yield their counterexamples; the hand-over windows must be reachable;
+ 3. spec -> code: TLC simulation emits histories (requests, some of them following an ASK redirection / connection loss /
+    backend down+up / reset-all / backend stall and end of stall); each is replayed end-to-end on a real Redis processor
+    against a simulated node that is reset, shut down and restarted on the same port and made to hold its replies back
+    while other sessions fill the in-flight queue of its connection (1024); per request the reply class is compared
+    with what the model allows (error only if the request witnessed a fault), then the proxy must serve requests again
+    over a new connection, hold at most one backend connection per node, and none after Stop.
+    Mandatory strata (spec/redis/Strata_ConnTable.cfg, every run): a request held by the writer at the hand-over of a
+    command / of the ASKING placeholder x the stall ends by connection loss / backend restart / reset-all / normally;
  4. spec/redis/Refresh.tla (trigger channel, refresh loop, retry, minimum interval): Converges, BoundedRounds (at most two
-    successful rounds after the last layout change), NoLostTrigger, QuitEnds; code: after each layout change the number of
-    refresh rounds until redirections stop is read from the service's statistics and compared with the bound.
+    successful rounds after the last layout change), NoLostTrigger, QuitEnds, TriggerKept (a refresh asked for while an
+    older CLUSTER NODES reply is in flight survives the installation of that reply; DrainOnSuccess = TRUE must violate it);
+    code: (a) after each layout change the number of refresh rounds until redirections stop is read from the service's
+    statistics and compared with the bound; (b) RefreshGen histories (spec/redis/Gen_Refresh.cfg, mandatory strata
+    spec/redis/Strata_Refresh.cfg: a request notices the stale table while the loop waits / sleeps / has a refresh in
+    flight that has seen the current / an older layout / fails) are replayed with the CLUSTER NODES replies of the seed
+    node held back, in two flavours (slot moved: MOVED; master dead, replica promoted: failed connect); when the loop
+    has come to rest after the first redirection, a request must be neither redirected nor answered with an error.
+Owned: spec/redis/ConnTable.tla ConnTableGen.tla Refresh.tla RefreshGen.tla and their cfg files
+       (MC_ConnTable_*, Gen_ConnTable, Strata_ConnTable, MC_Refresh*, Gen_Refresh, Strata_Refresh), harness/cases/c07, harness/cmd/c07.
 """
 import os
+from concurrent.futures import ThreadPoolExecutor
 
 import kit
 
 LEVEL = "model_checking"
+
+FAULTS = ("ConnLost", "BackendDown", "BackendUp", "ResetAll")
+PIPE_ACTIONS = ("Stall", "Unstall", "WriterTake", "HandOver", "HandQuit")
+
+
+def pipeline_window(beh):
+    """The window of a history: was the writer of a stalled connection holding a request when a fault hit?
+    Returns "" | "full-pipeline" | "full-pipeline/cmd-handover" | "full-pipeline/ask-handover"."""
+    stalled, held, win = False, None, ""
+    rank = {"": 0, "full-pipeline": 1, "full-pipeline/cmd-handover": 2, "full-pipeline/ask-handover": 3}
+    for s in beh:
+        a = s["a"]
+        if a == "Stall":
+            stalled, held = True, None
+        elif a == "Unstall":
+            stalled, held = False, None
+        elif a == "Issue" and stalled and held is None:
+            held = "ask" if s.get("ask") else "cmd"
+        elif a in ("ConnLost", "BackendDown", "ResetAll") and stalled:
+            w = "full-pipeline" + ("/%s-handover" % held if held else "")
+            if rank[w] > rank[win]:
+                win = w
+            stalled, held = False, None
+    return win
+
+
+def stratum_key(beh):
+    """(command / ASKING hand-over, how the request the writer held got its reply) of a Strata_ConnTable path."""
+    last = beh[-1]
+    ask = [e for e in beh if e["a"] == "Issue" and e["r"] == last["r"]][0].get("ask")
+    env = [e["a"] for e in beh[:-1] if e["a"] in ("ConnLost", "BackendDown", "ResetAll", "Unstall")]
+    return ("ask" if ask else "cmd", env[-1] if env else "?", last["out"])
 
 
 def run(ctx):
@@ -24,39 +70,98 @@ def run(ctx):
     ctx.assumptions += [
         "one backend address per model instance (entries of different addresses do not interact)",
         "a request issued while the proxy is still processing a connection loss, or that shares a connect attempt started while the backend was down, may be answered with an error (bounded windows, stated in the module)",
+        "the traffic that fills the in-flight queue of a stalled connection is not modelled request by request (state `full`); a stall begins while no modelled request is on its way",
     ]
-    r = ctx.mc("redis", "ConnTable", "MC_ConnTable_fixed.cfg", workers=8, timeout=900, coverage=not ctx.thorough)
-    if r.coverage:
-        ctx.check_vacuity(r, "ConnTable", ignore=("ResetSnapshot",))
-    ctx.mc("redis", "ConnTable", "MC_ConnTable_pinned_call.cfg", workers=4, timeout=300,
-           expect_violated=["NoStaleCall", "ErrorsOnlyWhileDown", "NoDeadEntry"], count=False)
-    ctx.mc("redis", "ConnTable", "MC_ConnTable_pinned_remove.cfg", workers=4, timeout=300,
-           expect_violated=["NoOrphanClient"], count=False)
-    ctx.mc("redis", "ConnTable", "MC_ConnTable_pinned_reset.cfg", workers=4, timeout=300,
-           expect_violated=["NoOrphanClient"], count=False)
-    # the refresh loop: one-slot trigger channel, retry on failure, minimum interval; convergence within two rounds
-    ctx.mc("redis", "Refresh", "MC_Refresh.cfg", workers=4, timeout=300)
+    quick = not ctx.thorough
+    # TLC runs side by side with the replays (the replays mostly wait): the exhaustive run of the connection table in one
+    # thread, the small runs (anti-vacuity, windows, stalled connection, refresh loop) in another
+    pool = ThreadPoolExecutor(max_workers=2)
+
+    def big():
+        # quick: 4 requests, 2 faults (the stalled configuration below adds 3 requests, 2 faults, 1 stall); thorough: 3 faults
+        return ctx.mc("redis", "ConnTable", "MC_ConnTable_fixed_quick.cfg" if quick else "MC_ConnTable_fixed.cfg", workers=6, timeout=900)
+
+    def small():
+        jobs = [
+            ("ConnTable", "MC_ConnTable_pinned_call.cfg", ["NoStaleCall", "ErrorsOnlyWhileDown", "NoDeadEntry"]),
+            ("ConnTable", "MC_ConnTable_pinned_remove.cfg", ["NoOrphanClient"]),
+            ("ConnTable", "MC_ConnTable_pinned_reset.cfg", ["NoOrphanClient"]),
+            # hand-over of the ASKING placeholder without the quit case: the writer of a lost connection never wakes up,
+            # the dead client keeps the address, later requests fail although the backend is reachable
+            ("ConnTable", "MC_ConnTable_pinned_ask.cfg", ["ErrorsOnlyWhileDown"]),
+            # a successful refresh that empties the trigger channel forgets the refresh asked for meanwhile
+            ("Refresh", "MC_Refresh_drain.cfg", ["TriggerKept"]),
+        ]
+        if not quick:
+            # reachability of the windows (in the quick tier the strata emission below fails if a window is unreachable)
+            jobs += [("ConnTable", "MC_ConnTable_win_cmd.cfg", ["NoHandoverCmd"]),
+                     ("ConnTable", "MC_ConnTable_win_ask.cfg", ["NoHandoverAsk"]),
+                     ("Refresh", "MC_Refresh_window.cfg", ["NoWindow"])]
+        for (m, c, v) in jobs:
+            ctx.mc("redis", m, c, workers=2, timeout=300, expect_violated=v, count=False)
+        # the stalled connection: in-flight queue full, writer at the hand-over of a command / of the ASKING placeholder;
+        # every action of the module is taken in this configuration
+        rs = ctx.mc("redis", "ConnTable", "MC_ConnTable_stall.cfg" if quick else "MC_ConnTable_stall_thorough.cfg",
+                    workers=4, timeout=1800, coverage=quick)
+        if rs.coverage:
+            ctx.check_vacuity(rs, "ConnTable", ignore=("ResetSnapshot",))
+        # the refresh loop: one-slot trigger channel, retry on failure, minimum interval; convergence within two rounds;
+        # a trigger raised while an older reply is in flight is kept
+        ctx.mc("redis", "Refresh", "MC_Refresh.cfg", workers=2, timeout=300)
+
+    fut_big, fut_small = pool.submit(big), pool.submit(small)
+
+    # ---------------------------------------------------------------- connection table: histories on the real code
     num = 300 if ctx.thorough else 40
     g = ctx.tlc("redis", "ConnTableGen", "Gen_ConnTable.cfg", mode="sim", workers=1, sim_num=num, sim_depth=150,
                 seed=ctx.seed, deadlock=False, timeout=300)
     behs = [p for (tag, p) in g.prints if tag == "BEH"]
     if len(behs) < num // 2:
         raise kit.Inconclusive("only %d behaviours emitted: %s" % (len(behs), g.error[:300]))
+    # mandatory strata: shortest path per (hand-over kind, end of the stall) out of one exhaustive run
+    st = ctx.tlc("redis", "ConnTableGen", "Strata_ConnTable.cfg", workers=1, deadlock=False, timeout=300)
+    if st.timeout or (st.error and not st.prints):
+        raise kit.Inconclusive("strata emission failed: %s" % st.error[:500])
+    best = {}
+    for (tag, p) in st.prints:
+        if tag == "STRATUM":
+            k = stratum_key(p)
+            if k not in best or len(p) < len(best[k]):
+                best[k] = p
+    st.prints, st.stdout = [], ""
+    need = {(h, e, "err") for h in ("cmd", "ask") for e in ("ConnLost", "BackendDown", "ResetAll")} | {("cmd", "Unstall", "ok"), ("ask", "Unstall", "ok")}
+    if need - set(best):
+        raise kit.Inconclusive("strata not reachable in ConnTableGen: %s" % sorted(need - set(best)))
+    strata = {}
+    for k in sorted(need):
+        strata[len(behs)] = "/".join(k[:2])
+        behs.append(best[k])
+    ctx.cov["conntable_strata"] = sorted(strata.values())
     bfile = os.path.join(ctx.work, "behaviours.ndjson")
     kit.write_ndjson(bfile, behs)
     rfile = os.path.join(ctx.work, "replay.ndjson")
-    ctx.harness(["c07-replay", "-in", bfile, "-out", rfile], timeout=3000)
+    ctx.harness(["c07-replay", "-in", bfile, "-out", rfile, "-par", "4"], timeout=3000)
     results = kit.read_ndjson(rfile)
     okc = 0
-    for res, beh in zip(results, behs):
+    missed = []
+    for idx, (res, beh) in enumerate(zip(results, behs)):
         if res.get("err"):
             ctx.notes.append("replay %d: %s" % (res["id"], res["err"]))
+            if idx in strata:
+                missed.append("%s: %s" % (strata[idx], res["err"]))
             continue
         okc += 1
-        faults = [s["a"] for s in beh if s["a"] in ("ConnLost", "BackendDown", "BackendUp", "ResetAll")]
-        ctx.case(key=[(s["a"], s["r"]) for s in beh], nontrivial=len(faults) > 0)
+        faults = [s["a"] for s in beh if s["a"] in FAULTS]
+        win = pipeline_window(beh)
+        ctx.case(key=[(s["a"], s["r"], bool(s.get("ask"))) for s in beh], nontrivial=len(faults) > 0 or bool(win) or idx in strata)
         art = {"behaviour": beh, "result": res}
+        if idx in strata:
+            art["stratum"] = strata[idx]
+            if win and not res.get("heldAtFault"):
+                missed.append("%s: the writer was not seen holding a request when the fault hit" % strata[idx])
         fkind = "+".join(sorted(set(faults))) or "no-fault"
+        if win:
+            fkind = win + "/" + fkind
         # The replay controls the environment only: whether a request joined the connect attempt of an earlier,
         # still unanswered request (fail fast sharing) is up to the proxy's goroutines. An error is therefore also
         # allowed when some request that was in flight at issue time witnessed a fault in the model.
@@ -89,10 +194,19 @@ def run(ctx):
         if res["stopOK"] and res["connsAfterStop"] > 0:
             ctx.violation("backend-connection-open-after-stop/%s" % fkind,
                           "%d backend connections still open after Stop returned" % res["connsAfterStop"], art)
+        if res.get("resetHung"):
+            ctx.notes.append("replay %d (%s): OnSvcAllHostReplace did not return within 5 s" % (res["id"], fkind))
+        if res.get("fillerSent", 0) != res.get("fillerAnswered", 0):
+            ctx.notes.append("replay %d (%s): %d of %d requests of the sessions that filled the queue were never answered (C02's subject)"
+                             % (res["id"], fkind, res["fillerSent"] - res["fillerAnswered"], res["fillerSent"]))
+        if res.get("stalls"):
+            ctx.cov["stalled_histories"] = ctx.cov.get("stalled_histories", 0) + 1
         if not res.get("bad") and res["healOK"]:
             ctx.cov["traces_validated_against_impl"] += 1
     if okc < len(behs) * 0.8:
         raise kit.Inconclusive("replay driver unhealthy: %d of %d" % (okc, len(behs)))
+    if missed:
+        raise kit.Inconclusive("mandatory strata not exercised on the code: %s" % "; ".join(missed[:4]))
     # several backends lose their connections at the same instant (exits and self-removals of clients overlap)
     mfile = os.path.join(ctx.work, "multi.ndjson")
     ctx.harness(["c07-multi", "-out", mfile, "-rounds", "40" if ctx.thorough else "8", "-nodes", "16" if ctx.thorough else "8"], timeout=1200)
@@ -105,6 +219,83 @@ def run(ctx):
             ctx.violation("orphan-backend-connection/simultaneous-loss", "%d backend connections open to one node" % r["maxConns"], r)
         else:
             ctx.cov["traces_validated_against_impl"] += 1
+
+    # ---------------------------------------------------------------- refresh loop: histories on the real code
+    rnum = 80 if ctx.thorough else 8
+    g2 = ctx.tlc("redis", "RefreshGen", "Gen_Refresh.cfg", mode="sim", workers=1, sim_num=rnum, sim_depth=60,
+                 seed=ctx.seed, deadlock=False, timeout=300)
+    rsim = [p for (tag, p) in g2.prints if tag == "BEH"]
+    if len(rsim) < rnum // 2:
+        raise kit.Inconclusive("only %d refresh behaviours emitted: %s" % (len(rsim), g2.error[:300]))
+    st2 = ctx.tlc("redis", "RefreshGen", "Strata_Refresh.cfg", workers=1, deadlock=False, timeout=300)
+    if st2.timeout or (st2.error and not st2.prints):
+        raise kit.Inconclusive("refresh strata emission failed: %s" % st2.error[:500])
+    rbest = {}
+    for (tag, p) in st2.prints:
+        if tag == "STRATUM":
+            for k in p["wins"]:
+                if k not in rbest or len(p["hist"]) < len(rbest[k]):
+                    rbest[k] = p["hist"]
+    st2.prints, st2.stdout = [], ""
+    rneed = {"wait", "sleep", "asking-fresh", "asking-stale", "fail", "fail-with-token"}
+    if rneed - set(rbest):
+        raise kit.Inconclusive("strata not reachable in RefreshGen: %s" % sorted(rneed - set(rbest)))
+    rbehs = []
+    for fl in ("move", "failover"):
+        for k in sorted(rneed):
+            rbehs.append({"flavour": fl, "key": k, "steps": rbest[k]})
+    for i, b in enumerate(rsim):
+        rbehs.append({"flavour": ("move", "failover")[i % 2], "key": "", "steps": b})
+    ctx.cov["refresh_strata"] = sorted(rneed)
+    rbfile = os.path.join(ctx.work, "refresh-behaviours.ndjson")
+    kit.write_ndjson(rbfile, rbehs)
+    rrfile = os.path.join(ctx.work, "refresh.ndjson")
+    ctx.harness(["c07-refresh", "-in", rbfile, "-out", rrfile, "-par", "4"], timeout=3000)
+    rres = kit.read_ndjson(rrfile)
+    rok, rmissed = 0, []
+    for res, b in zip(rres, rbehs):
+        run1 = res["run"]
+        if run1.get("err"):
+            ctx.notes.append("refresh replay %d: %s" % (res["id"], run1["err"]))
+            if b["key"]:
+                rmissed.append("%s/%s: %s" % (b["key"], b["flavour"], run1["err"]))
+            continue
+        rok += 1
+        phases = sorted({s["phase"] for s in b["steps"] if s["a"] == "Notice"})
+        ctx.case(key=["refresh", b["flavour"], [(s["a"], s["phase"]) for s in b["steps"]]], nontrivial=True)
+        art = {"behaviour": b, "result": res}
+        # name of the window: the most specific phase in which a request noticed the stale table
+        win = "trigger-during-stale-refresh" if "asking-stale" in phases else (
+              "trigger-during-refresh" if "asking-fresh" in phases else (
+              "trigger-during-pause" if "sleep" in phases else "trigger-while-idle"))
+        bad = run1["probeRedirected"] or run1["probeErr"]
+        conf = res.get("confirm")
+        if bad and conf and not conf.get("err") and (conf["probeRedirected"] or conf["probeErr"]):
+            if not run1["quiet"] and not conf["quiet"]:
+                ctx.violation("no-convergence/refresh-loop-never-rests/%s" % b["flavour"],
+                              "the refresh loop did not come to rest within 6 s (asked %d, succeeded %d, failed %d)" % (conf["asked"], conf["success"], conf["failure"]), art)
+            elif run1["probeErr"] and conf["probeErr"]:
+                ctx.violation("error-while-reachable/after-refresh-rounds/%s/%s" % (win, b["flavour"]),
+                              "the refresh rounds triggered by the first redirection are over and the owner is reachable, but the request is answered %s (%s)"
+                              % (conf["probeReply"], run1.get("diverged") or "all steps followed"), art)
+            else:
+                ctx.violation("no-convergence/after-refresh-rounds/%s/%s" % (win, b["flavour"]),
+                              "the refresh rounds triggered by the first redirection are over but a request is still redirected (%s)"
+                              % (run1.get("diverged") or "all steps followed"), art)
+        elif bad:
+            ctx.notes.append("refresh replay %d (%s/%s): stale probe not confirmed by the second run" % (res["id"], win, b["flavour"]))
+        else:
+            if run1.get("diverged"):
+                ctx.cov["refresh_diverged"] = ctx.cov.get("refresh_diverged", 0) + 1
+                if b["key"]:
+                    rmissed.append("%s/%s: %s" % (b["key"], b["flavour"], run1["diverged"]))
+            else:
+                ctx.cov["traces_validated_against_impl"] += 1
+    if rok < len(rbehs) * 0.8:
+        raise kit.Inconclusive("refresh replay driver unhealthy: %d of %d" % (rok, len(rbehs)))
+    if rmissed:
+        raise kit.Inconclusive("mandatory refresh strata not exercised on the code: %s" % "; ".join(rmissed[:4]))
+
     # layout changes: redirections stop within the refresh rounds Refresh.tla allows
     ctx.build("cluster")
     vfile = os.path.join(ctx.work, "converge.ndjson")
@@ -119,7 +310,15 @@ def run(ctx):
             ctx.violation("too-many-refresh-rounds/layout-change", "%d successful refresh rounds until redirections stopped (model: at most 2)" % r["rounds"], r)
         else:
             ctx.cov["traces_validated_against_impl"] += 1
+    # the exhaustive runs must have ended clean (Inconclusive otherwise)
+    fut_small.result()
+    fut_big.result()
+    pool.shutdown()
     if results:
         ctx.sample({"behaviour": [(s["a"], s["r"]) for s in behs[0]], "result": results[0]})
-    ctx.cov["rule"] = ("histories = TLC simulation of ConnTableGen (seeded); distinct by event sequence; non-trivial = contains a fault; "
-                       "judged by: error reply only if the request witnessed a fault, healing over a new connection, at most one backend connection")
+    if rres:
+        ctx.sample({"refresh": [(s["a"], s["phase"]) for s in rbehs[1]["steps"]], "flavour": rbehs[1]["flavour"], "result": rres[1]})
+    ctx.cov["rule"] = ("histories = TLC simulation of ConnTableGen / RefreshGen (seeded) + one shortest path per mandatory stratum (exhaustive run); "
+                       "distinct by event sequence; non-trivial = contains a fault, a stall or a stale table; "
+                       "judged by: error reply only if the request witnessed a fault, healing over a new connection, at most one backend connection; "
+                       "after the refresh rounds triggered by the first redirection no redirection and no error")
